@@ -207,7 +207,7 @@ class SymInt(_SymMixin, int):
         raise Unsupported("index() of a symbolic value")
 
     def __int__(self):
-        raise Unsupported("int() of a symbolic value")
+        return self  # int(x) of a symbolic integer stays symbolic
 
 
 def explore(fn, assumptions=(), max_paths=200):
